@@ -72,7 +72,7 @@ class Ctx:
             bad = [l for l in strip_comments(src).split('\n') if FORBIDDEN.search(l)]
             if bad:
                 self.machinery_errors.append('forbidden token in %s: %s' % (m, bad[0].strip()))
-            for mm in re.finditer(r'^(?:theorem|example)\s*([A-Za-z0-9_.\']*)', src, flags=re.M):
+            for mm in re.finditer(r'^(?:theorem|example)\s*([A-Za-z0-9_.\'?!]*)', src, flags=re.M):
                 thms.append((m, mm.group(1) or 'example@%d' % (src[:mm.start()].count('\n') + 1), src[:mm.start()].count('\n') + 1))
         self.obligations = len(thms)
         ok, out = core.build_lean(modules)
@@ -102,7 +102,7 @@ class Ctx:
             src = strip_comments(open(path).read())
             ns = re.findall(r'^namespace\s+(\S+)', src, flags=re.M)
             ns = ns[0] + '.' if ns else ''
-            for mm in re.finditer(r'^theorem\s+([A-Za-z0-9_.\']+)', src, flags=re.M):
+            for mm in re.finditer(r'^theorem\s+([A-Za-z0-9_.\'?!]+)', src, flags=re.M):
                 names.append(ns + mm.group(1))
         if not names:
             return {}
